@@ -27,3 +27,17 @@ for c, r in zip(cases, res):
                 print('   prev ops:', [O.to_rust(o) for o in c['ops'][max(0,i-6):i]])
             else: print(c['id'], r[:300])
 print('mismatches', bad, 'of', len(cases))
+t = time.time()
+res2 = coqrun.run_cases(cases, cfg, '/verif/work/try2s', fn='spec_check', imports='Storage Query World Run Spec')
+print('spec', round(time.time()-t,1), 's')
+sb = 0
+import re
+for c, r in zip(cases, res2):
+    if r != 'None':
+        sb += 1
+        if sb <= 6:
+            nums = [int(x) for x in re.findall(r'\d+', r)]
+            i = nums[0]
+            print(c['id'], 'SPEC', r, 'op', O.to_rust(c['ops'][i]) if i < len(c['ops']) else None, '=>', c['obs'][i][:40] if i < len(c['obs']) else None)
+            print('   prev ops:', [O.to_rust(o) for o in c['ops'][max(0,i-5):i]])
+print('spec failures', sb, 'of', len(cases))
